@@ -171,6 +171,7 @@ func c03Gen(tier string, r *rand.Rand) []Case {
 			lv = base()
 			lv[pos] = c03Leaf{"good", h32(big.NewInt(0)), h32(xs[pos])} // identity signature
 			add("identity-signature", "hook", lv, rbytes(r, 16*n))
+			add("identity-signature-api", "api", lv, nil)
 		}
 	}
 	for i := 0; i < nrand; i++ {
